@@ -210,6 +210,14 @@ pub fn run(rep: &mut Report, prop: &str) {
             return;
         }
     };
+    // the recorded registry knows the canonical token under the id the pinned version derived; if the
+    // current tree derives another id for it (new prefixes, another hash input) the statements say
+    // nothing about ids across versions, and the registry part of the continuation does not apply
+    if matches!(prop, "C04" | "C05" | "C11" | "C18") && l.w.registry_entry(&l.canon_id.clone()).is_none() {
+        rep.count("note:legacy-state-not-applicable");
+        rep.step("legacy state: the current tree derives other token ids than the recorded ones".into());
+        return;
+    }
     rep.count("legacy-state-continued");
     rep.step(format!("legacy state loaded; continuing for {}", prop));
     match prop {
